@@ -2,7 +2,7 @@
 import itertools, re, z3
 from mirsym.core import *
 from mirsym import bridge, native, tokproj
-from mirsym.harness import Checker
+from mirsym.harness import Checker, model_int
 from mirsym.tokproj import TS, safe_str
 
 ROOTS = list(bridge.GEN_ROOTS)
@@ -16,7 +16,113 @@ BODY = "S ::= SEQUENCE { a [1] INTEGER, b BOOLEAN } C ::= CHOICE { x NULL, y [2]
 
 
 def jobs(tier, seed):
-    return ['prestate', 'imports', 'native-sets']
+    return ['prestate', 'imports', 'native-sets'] + [f"neighbour{i}" for i in range(len(NEIGHBOURS))]
+
+
+def prepare():
+    from mirsym import pipe
+    pipe.dump()
+
+
+P1 = 1000003
+# (label, the modules under test, an UNRELATED neighbour): all top-level names are distinct, nothing imports from the neighbour; the
+# neighbour only re-uses spellings that are LOCAL to the modules under test (named numbers, enumerals, dummy references, identifiers)
+NEIGHBOURS = [
+    ("named number / enumeral spelled like an imported value",
+     [f"Alpha DEFINITIONS AUTOMATIC TAGS ::= BEGIN maxLen INTEGER ::= {P1} END",
+      "Beta DEFINITIONS AUTOMATIC TAGS ::= BEGIN IMPORTS maxLen FROM Alpha; Name ::= IA5String (SIZE (1..maxLen)) Cnt ::= INTEGER (0..maxLen) Rec ::= SEQUENCE { n INTEGER (1..maxLen) OPTIONAL } END"],
+     "Gamma DEFINITIONS EXPLICIT TAGS ::= BEGIN Limits ::= INTEGER { minLen(1), maxLen(99) } Kind ::= ENUMERATED { maxLen, other } END", lambda v: [v >= 1]),
+    ("named number / enumeral spelled like a local value",
+     [f"Beta DEFINITIONS AUTOMATIC TAGS ::= BEGIN top INTEGER ::= {P1} Rr ::= INTEGER (0..top) Ss ::= SEQUENCE (SIZE (0..top)) OF BOOLEAN Dd ::= SEQUENCE {{ d INTEGER DEFAULT top }} END"],
+     "Aaa DEFINITIONS IMPLICIT TAGS ::= BEGIN Gg ::= ENUMERATED { top, bottom } Hh ::= INTEGER { top(7) } (0..top) END", lambda v: [v >= 0]),
+    ("enumeral of the neighbour spelled like an enumeral used as DEFAULT / value",
+     [f"Beta DEFINITIONS AUTOMATIC TAGS ::= BEGIN Colour ::= ENUMERATED {{ red, green, blue }} Pix ::= SEQUENCE {{ c Colour DEFAULT green, n INTEGER (0..{P1}) }} fav Colour ::= blue END"],
+     "Aaa DEFINITIONS AUTOMATIC TAGS EXTENSIBILITY IMPLIED ::= BEGIN Apple ::= ENUMERATED { green, red } Berry ::= INTEGER { blue(3) } END", lambda v: [v >= 0]),
+    ("dummy reference / component identifier of the neighbour spelled like a definition",
+     [f"Beta DEFINITIONS AUTOMATIC TAGS ::= BEGIN Item ::= OCTET STRING (SIZE (0..{P1})) limit INTEGER ::= {P1} Box ::= SEQUENCE {{ i Item, l INTEGER (0..limit) }} END"],
+     "Aaa DEFINITIONS AUTOMATIC TAGS ::= BEGIN Wrap {Item, INTEGER: limit} ::= SEQUENCE (SIZE (0..limit)) OF Item Ww ::= Wrap {BOOLEAN, 4} Other ::= SEQUENCE { item NULL, limit BOOLEAN } END", lambda v: [v >= 0]),
+]
+
+
+def mod_block(chars, name):
+    """the characters of `pub mod <name> { ... }` in a generated text (symbolic fragments are opaque), or None"""
+    pat = [ord(c) for c in f"pub mod {name} "]
+    for i in range(len(chars) - len(pat)):
+        if chars[i:i + len(pat)] == pat:
+            depth, j = 0, i
+            while j < len(chars):
+                c = chars[j]
+                if c == 123:
+                    depth += 1
+                elif c == 125:
+                    depth -= 1
+                    if depth == 0:
+                        return chars[i:j + 1]
+                j += 1
+    return None
+
+
+def job_neighbour(chk, prog, k, tier):
+    from mirsym import pipe
+    label, mods, neighbour, assume = NEIGHBOURS[k]
+    pp = pipe.Pipe(prog)
+    chk.ex.max_path_steps = 60000000
+    v = z3.BitVec('p1', 128)
+    sub = {P1: v}
+    names = [m.split()[0].lower() for m in mods]
+    variants = [list(mods), list(mods) + [neighbour], [neighbour] + list(mods)]
+    sig = f"C12 neighbour [{label}]"
+
+    def run(ex):
+        for c in assume(v):
+            ex.assume(c)
+        return [pp.compile(ex, srcs, sub) for srcs in variants]
+    for r in chk.explore(run):
+        if r.kind == 'panic':
+            chk.violation(sig + ' panic', f"compilation panics: {r.value[0]}", {'kind': 'text', 'text': '\n'.join(variants[1])})
+            continue
+        if r.kind != 'ok':
+            continue
+        outs = r.value
+        for j in (1, 2):
+            for nm in names:
+                chk.res.obligations += 1
+                diff = None
+                if outs[0][0] != 'ok' or outs[j][0] != 'ok':
+                    diff = (f"alone: {outs[0][0]}, next to the neighbour: {outs[j][0]}", None) if outs[0][0] != outs[j][0] else None
+                    if diff is None:
+                        chk.res.discharged += 1
+                        continue
+                else:
+                    a, b = mod_block(outs[0][1], nm), mod_block(outs[j][1], nm)
+                    if a is None or b is None:
+                        diff = (f"module {nm} missing ({'alone' if a is None else 'next to the neighbour'})", None)
+                    else:
+                        d = pipe.texts_equal(chk, r.pc, a, b)
+                        if d is not None:
+                            pos, m = d
+                            diff = (f"module {nm} differs at offset {pos}: alone `..{pipe.text_repr(a[max(0, pos - 70):pos + 50])}` next to the neighbour `..{pipe.text_repr(b[max(0, pos - 70):pos + 50])}`", m)
+                if diff is None:
+                    chk.res.discharged += 1
+                    continue
+                msg, m = diff
+                if m is None:
+                    m = chk.model_of(r.pc)
+                val = model_int(m, v, True) if m is not None else 5
+                conc = lambda ss: [x.replace(str(P1), str(val)) for x in ss]
+                runner = native.Runner()
+                try:
+                    o0, o1 = runner.compile(conc(variants[0])), runner.compile(conc(variants[j]))
+                finally:
+                    runner.close()
+                same = o0.get('ok') == o1.get('ok') and (not o0.get('ok') or split_mods(o0['generated']).get(nm) == split_mods(o1['generated']).get(nm))
+                if not same:
+                    chk.violation(f"{sig} {nm}", f"{msg} [value {val}]: {' / '.join(conc(variants[j]))}", {'kind': 'text', 'text': '\n'.join(conc(variants[j]))})
+                else:
+                    chk.res.inconclusive.append(f"not reproduced natively: {sig}: {msg[:300]}")
+        chk.witness('module compiled alone and next to an unrelated neighbour', True)
+    chk.sample({'neighbour case': label})
+    chk.res.bounds = {'neighbour cases': len(NEIGHBOURS), 'integers': '1 x i128 symbolic', 'orders': 'neighbour last / first'}
 
 
 def job_prestate(prog, chk, tier):
@@ -298,6 +404,13 @@ def job_native_sets(prog, chk, tier, seed):
 
 
 def run_job(prog, job, tier, seed):
+    if job.startswith('neighbour'):
+        from mirsym import pipe
+        from mirsym.harness import program
+        pprog = program(pipe.dump())
+        chk = Checker(pprog, job)
+        job_neighbour(chk, pprog, int(job[9:]), tier)
+        return chk.res
     chk = Checker(prog, job)
     if job == 'prestate':
         job_prestate(prog, chk, tier)
